@@ -56,6 +56,8 @@ struct Case {
     with_bounds: bool,
     /// the bound arguments stop resolution (`bound(T)` instead of `bound(T: Copy, ..)`)
     bounds_stop: bool,
+    /// the definition comes out of a macro_rules! macro and every `#[default(expr)]` value arrives as an `expr` fragment
+    via_macro: bool,
     entry: Entry,
 }
 
@@ -87,12 +89,16 @@ fn gen_fields(ch: &mut Ch, thorough: bool) -> Option<Case> {
     if !thorough && body.n == 3 && (as_enum || with_bounds || entry == Entry::Derive) {
         return None;
     }
+    let via_macro = ch.flag();
+    if via_macro && (dev == 0 || entry == Entry::Derive && !thorough) {
+        return None;
+    }
     let (shape, exprs, marked) = if as_enum {
         (Shape { is_enum: true, variants: vec![vshape(SKind::Unit, 0), body] }, vec![vec![], e], vec![1])
     } else {
         (Shape { is_enum: false, variants: vec![body] }, vec![e], vec![])
     };
-    Some(Case { gen: "", vector: ch.vector(), shape, exprs, marked, value_on_variant: false, type_level: 0, with_bounds, bounds_stop, entry })
+    Some(Case { gen: "", vector: ch.vector(), shape, exprs, marked, value_on_variant: false, type_level: 0, with_bounds, bounds_stop, via_macro, entry })
 }
 
 /// G2: which variant is selected (none / one / several / single-variant rule / value on the attribute).
@@ -125,7 +131,7 @@ fn gen_variants(ch: &mut Ch, thorough: bool) -> Option<Case> {
     if !thorough && entry == Entry::Derive && with_bounds {
         return None;
     }
-    Some(Case { gen: "", vector: ch.vector(), shape, exprs, marked, value_on_variant, type_level: 0, with_bounds, bounds_stop, entry })
+    Some(Case { gen: "", vector: ch.vector(), shape, exprs, marked, value_on_variant, type_level: 0, with_bounds, bounds_stop, via_macro: false, entry })
 }
 
 /// G3: type-level values.
@@ -160,7 +166,7 @@ fn gen_type_level(ch: &mut Ch, thorough: bool) -> Option<Case> {
     if type_level == 2 && shape.is_enum && !shape.variants.iter().any(|v| v.kind == SKind::Unit) {
         return None;
     }
-    Some(Case { gen: "", vector: ch.vector(), shape, exprs, marked, value_on_variant: false, type_level, with_bounds, bounds_stop, entry })
+    Some(Case { gen: "", vector: ch.vector(), shape, exprs, marked, value_on_variant: false, type_level, with_bounds, bounds_stop, via_macro: false, entry })
 }
 
 struct Built {
@@ -319,7 +325,11 @@ fn build(c: &Case, tier: &str, bi: &Built) -> XCase {
     let mut s = String::new();
     s.push_str("use derive_ex::{derive_ex, Ex};\n");
     s.push_str(PRELUDE);
-    s.push_str(&format!("#[derive(Debug)]\n{head}\n{}\n{}", bi.item, bi.impls));
+    let definition = match (c.via_macro, macroize_default_exprs(&format!("#[derive(Debug)]\n{head}"), &bi.item)) {
+        (true, Some(m)) => m,
+        _ => format!("#[derive(Debug)]\n{head}\n{}\n", bi.item),
+    };
+    s.push_str(&format!("{definition}{}", bi.impls));
     let r = bi.reference.clone().unwrap();
     s.push_str(&format!("pub fn run() -> String {{\n    let a: {selfty} = <{selfty} as ::core::default::Default>::default();\n    let b: {selfty} = {r};\n    let (a, b) = (format!(\"{{:?}}\", a), format!(\"{{:?}}\", b));\n    if a == b {{ \"t;\".to_string() }} else {{ format!(\"f[{{}}|{{}}];\", a, b) }}\n}}\n"));
     let mut atoms = BTreeSet::new();
@@ -328,13 +338,14 @@ fn build(c: &Case, tier: &str, bi: &Built) -> XCase {
     atoms.insert(format!("type_level={}", c.type_level));
     atoms.insert(format!("with_bounds={}", c.with_bounds));
     atoms.insert(format!("bounds_stop={}", c.bounds_stop));
+    atoms.insert(format!("via_macro={}", c.via_macro));
     for e in c.exprs.iter().flatten() {
         if *e != 0 {
             atoms.insert(format!("expr={}", EXPRS[*e].3));
         }
     }
     XCase {
-        text: format!("{} {}{}", c.entry.name(), bi.item, bi.impls),
+        text: format!("{} {}{}{}", c.entry.name(), bi.item, bi.impls, if c.via_macro { " [generated by macro_rules!, default values as expr fragments]" } else { "" }),
         code: s,
         expected: "t;".into(),
         atoms,
